@@ -1122,13 +1122,13 @@ func (p *Parser) parseClassElement() ClassElement {
 			method.Async = false
 			method.Get = false
 			method.Set = false
-		} else {
+		} else if bytes.Equal(data, []byte("static")) {
 			method.Static = false
 		}
 	} else if data != nil && (p.tt == EqToken || p.tt == SemicolonToken || p.tt == CloseBraceToken) {
 		// (static) field name is: static, async, get, or set
 		method.Name.Literal = LiteralExpr{IdentifierToken, data}
-		if !method.Async && !method.Get && !method.Set {
+		if !method.Async && !method.Get && !method.Set && bytes.Equal(data, []byte("static")) {
 			method.Static = false
 		}
 		isField = true
